@@ -1281,13 +1281,21 @@ def gen_registry(seed, mode="loop"):
     big = [10 ** 10, 10 ** 10 + 1, 2 * 10 ** 10, 1 << 40, (1 << 40) + (1 << 32), (1 << 40) + (1 << 31) + 7, 1 << 62, (1 << 62) + 5, (1 << 63) - 1, 3 * 10 ** 9]
     small = [1, 2, 1000, 999999]
     tmr_pool = r.sample(big, r.randrange(2, 7)) + ([] if with_loop else r.sample(small, r.randrange(0, 3)))
+    # periods that the library's own timers (batch timeout, token bucket refill at 1 / 2 / 10 per second) can have too
+    tmr_pool += r.sample([10 ** 9, 5 * 10 ** 8, 10 ** 8], r.randrange(0, 3))
     sgn_pool = r.sample([10, 12, 34, 35, 36, 37], r.randrange(2, 5))
     thr_pool = r.sample([(1, 0), (2, 0), (1, 1000), (0, 1000), (3, 0), (2, 1000), (1, 2000), (0, 3000), (5, 500), (4, 1500)], r.randrange(2, 7))
     top_pool = [sc.topic(t) for t in r.sample(["alpha", "beta", "gamma", "ab1", "ab2", "^ab.*", "g.mma"], r.randrange(2, 6))]
 
     def one(m):
-        k = r.choice(["fd", "tmr", "tmr", "sgn", "sgn", "thresh", "thresh", "sub", "path", "pid", "task", "life", "bad"])
+        k = r.choice(["fd", "tmr", "tmr", "sgn", "sgn", "thresh", "thresh", "sub", "path", "pid", "task", "life", "bad", "internal"])
         reg = r.random() < 0.6
+        if k == "internal":
+            # the library's own timers never show up in, nor disturb, the user's set of timers
+            # (the batch timeout is cleared again at once: delayed deliveries would blur when one-shot sources are gone)
+            if r.random() < 0.5:
+                return [("ATOMIC", ("btimeout", m, r.choice(tmr_pool)), ("srclen", m), ("btimeout", m, 0))]
+            return [("tb", m, r.choice([0, 1, 2, 10]), 1000000)]
         if k == "fd":
             u = r.choice([x for x in fd_owner if fd_owner[x] == m] or [None])
             if shared is not None and r.random() < 0.4:
@@ -1357,14 +1365,16 @@ def gen_registry(seed, mode="loop"):
     body = cleaned
     sc.meta["tasked"] = sorted(tasked)
     if with_loop:
+        def flat(ops):
+            return [y for x in ops for y in (x[1:] if x[0] == "ATOMIC" else [x])]
         cut = r.randrange(0, len(body) + 1)
-        sc.main += body[:cut]
+        sc.main += flat(body[:cut])
         rest = body[cut:]
-        steps = [rest[i:i + 3] for i in range(0, len(rest), 3)]
+        steps = [flat(rest[i:i + 3]) for i in range(0, len(rest), 3)]
         runs = [steps[:len(steps) // 2], steps[len(steps) // 2:]] if r.random() < 0.5 else [steps]
         driven_multi(sc, runs, [[] for _ in runs], rng=r)
     else:
-        sc.main += body
+        sc.main += [y for x in body for y in (x[1:] if x[0] == "ATOMIC" else [x])]
         sc.main.append(("LOOP_NONE",))
         order = sorted(sc.mods)
         r.shuffle(order)
